@@ -51,6 +51,11 @@ type tCase struct {
 	ForceSlow  bool      `json:"force_slow"`
 	MaxTraces  int       `json:"max_traces"`  // Decide batch trace-count cap (0: production default)
 	BatchLimit int       `json:"batch_limit"` // Decide batch byte budget in KiB (0: production plan)
+	// Late: a part that enters the table's snapshot WHILE the merge runs (a part shipped by a liaison whose id was
+	// reserved when the transfer was opened): it is introduced during the first Decide call. LateLow: its id is lower
+	// than the ids of the base snapshot's parts (reserved before them), otherwise higher.
+	Late    []tSpan `json:"late,omitempty"`
+	LateLow bool    `json:"late_low,omitempty"`
 }
 
 // c13Grace is the enforced maximum gap between fragments of one trace (merge grace): the guard may
@@ -83,9 +88,10 @@ func (s tSpan) key() string {
 
 // c13Sampler decides from what it is shown, like a content-based tail sampler.
 type c13Sampler struct {
-	c     tCase
-	shown map[string]int // trace id -> number of Decide calls that contained it
-	proj  sdk.Projection
+	c       tCase
+	shown   map[string]int // trace id -> number of Decide calls that contained it
+	proj    sdk.Projection
+	onFirst func() // runs once, inside the first Decide call (= while the merge runs)
 }
 
 func (f *c13Sampler) Kind() sdk.Kind          { return sdk.KindSampler }
@@ -93,6 +99,10 @@ func (f *c13Sampler) Project() sdk.Projection { return f.proj }
 func (f *c13Sampler) Close() error            { return nil }
 
 func (f *c13Sampler) Decide(batch *sdk.TraceBatch) (sdk.Verdict, error) {
+	if f.onFirst != nil {
+		f.onFirst()
+		f.onFirst = nil
+	}
 	switch f.c.Sampler {
 	case "panic":
 		panic("sampler panics")
@@ -261,6 +271,31 @@ func c13Run(x *verifkit.Ctx, c tCase) error {
 		all = append(all, newPartWrapper(nil, p))
 		releaseMemPart(mp)
 	}
+	var late *partWrapper
+	if len(c.Late) > 0 {
+		tr := &traces{}
+		for _, s := range c.Late {
+			st := "ok"
+			if s.Err {
+				st = "err"
+			}
+			tr.traceIDs = append(tr.traceIDs, traceName(s.Trace))
+			tr.timestamps = append(tr.timestamps, s.T)
+			tr.tags = append(tr.tags, []*tagValue{{tag: "status", valueType: pbv1.ValueTypeStr, value: convert.StringToBytes(st)}})
+			tr.spans = append(tr.spans, s.body())
+			tr.spanIDs = append(tr.spanIDs, fmt.Sprintf("span-%d", s.ID))
+		}
+		lateID := partIDBase + 50
+		if c.LateLow {
+			lateID = partIDBase - 50
+		}
+		mp := generateMemPart()
+		mp.mustInitFromTraces(tr)
+		mp.mustFlush(fileSystem, partPath(root, lateID))
+		late = newPartWrapper(nil, mustOpenFilePart(lateID, root, fileSystem))
+		releaseMemPart(mp)
+		defer late.decRef()
+	}
 	defer func() {
 		for _, pw := range all {
 			pw.decRef()
@@ -302,12 +337,31 @@ func c13Run(x *verifkit.Ctx, c tCase) error {
 	}
 	tst.segmentTimeRange = timestamp.NewSectionTimeRange(time.Unix(0, 0), time.Unix(3600, 0))
 	tst.snapshot = &snapshot{parts: append([]*partWrapper(nil), all...), epoch: 1, ref: 1}
-	defer tst.snapshot.decRef()
+	defer func() { tst.snapshot.decRef() }()
+	lateIntroduced := false
+	introduceLate := func() {
+		if late == nil || lateIntroduced {
+			return
+		}
+		lateIntroduced = true
+		tst.Lock()
+		old := tst.snapshot
+		ns := &snapshot{epoch: old.epoch + 1, ref: 1}
+		for _, pw := range old.parts {
+			pw.incRef()
+			ns.parts = append(ns.parts, pw)
+		}
+		late.incRef()
+		ns.parts = append(ns.parts, late)
+		tst.snapshot = ns
+		tst.Unlock()
+		old.decRef()
+	}
 
 	var filter *mergeFilter
 	var sampler *c13Sampler
 	if c.Sampler != "none" {
-		sampler = &c13Sampler{c: c, shown: map[string]int{}}
+		sampler = &c13Sampler{c: c, shown: map[string]int{}, onFirst: introduceLate}
 		switch c.Proj {
 		case 1:
 			sampler.proj = sdk.Projection{Tags: []string{"status"}}
@@ -370,6 +424,12 @@ func c13Run(x *verifkit.Ctx, c tCase) error {
 			return verifkit.Failf("reading the merged part: %v", err)
 		}
 	}
+	if lateIntroduced {
+		// the late part was in the table when the merge published its result
+		for _, s := range c.Late {
+			outside[traceName(s.Trace)] = true
+		}
+	}
 	failOpen := c.Sampler == "none" || c.Sampler == "error" || c.Sampler == "panic" || c.Sampler == "wrongsize"
 	dropped, multiBlock := 0, false
 	for _, id := range ids {
@@ -416,6 +476,8 @@ func c13Run(x *verifkit.Ctx, c tCase) error {
 	x.LabelIf(len(outside) > 0, "fragments outside the merge")
 	x.LabelIf(multiBlock, "trace larger than one block")
 	x.LabelIf(c.ForceSlow, "slow staging")
+	x.LabelIf(lateIntroduced, "a part entered the snapshot while the merge ran")
+	x.LabelIf(lateIntroduced && c.LateLow, "late part with an id below the base snapshot's")
 	multiPart := false
 	for _, id := range ids {
 		seen := map[int]bool{}
@@ -444,7 +506,8 @@ func TestVerifC13Merge(t *testing.T) {
 			"carries 3..5 spans of 600..900 KiB in different parts so that the merged trace crosses the 2 MiB block limit), any subset of >= 1 parts merged and the rest left in the " +
 			"table's snapshot, sampler in {none, drop-by-id, drop-unless-error-span, drop-if-short, error, panic, wrong verdict size} with every " +
 			"projection, raw or decoded staging, Decide batch caps {default,1,2,3 traces} x {plan, 64 KiB, 1 MiB, 3 MiB}; oracle: per trace all-or-nothing " +
-			"against the spans written, removal only on a whole-trace drop verdict and never with a fragment outside the merge, fail-open, sidx keep " +
+			"against the spans written, removal only on a whole-trace drop verdict and never with a fragment outside the merge - including, in 1 of 3 cases, a part that enters " +
+			"the snapshot while the merge runs (introduced inside the first Decide call) with an id above or below the base snapshot's ids -, fail-open, sidx keep " +
 			"predicate == presence in the output; non-trivial = a trace spread over >= 2 merged parts and (a drop happened or the merge had to keep everything)",
 		Gen: func(t *rapid.T, _ *verifkit.KnownSet) tCase {
 			c := tCase{Sampler: rapid.SampledFrom([]string{"none", "ids", "ids", "no-error-tail", "no-error-tail", "short", "error", "panic", "wrongsize"}).Draw(t, "sampler")}
@@ -505,10 +568,23 @@ func TestVerifC13Merge(t *testing.T) {
 			c.ForceSlow = rapid.Bool().Draw(t, "slow")
 			c.MaxTraces = rapid.SampledFrom([]int{0, 0, 1, 2, 3}).Draw(t, "maxtraces")
 			c.BatchLimit = rapid.SampledFrom([]int{0, 0, 64, 1024, 3072}).Draw(t, "batchlimit")
+			if rapid.IntRange(0, 2).Draw(t, "late") == 0 {
+				// a late fragment of 1..2 traces that live in the merged parts, at the timestamp of one of their spans
+				c.LateLow = rapid.Bool().Draw(t, "latelow")
+				var pool []tSpan
+				for _, i := range c.Merge {
+					pool = append(pool, c.Parts[i]...)
+				}
+				for k := rapid.IntRange(1, 2).Draw(t, "nlate"); k > 0 && len(pool) > 0; k-- {
+					src := rapid.SampledFrom(pool).Draw(t, "latesrc")
+					id++
+					c.Late = append(c.Late, tSpan{Trace: src.Trace, ID: id, T: src.T, Err: false})
+				}
+			}
 			return c
 		},
 		Check:        c13Run,
-		MinLabelFrac: map[string]float64{"a trace was dropped": 0.1, "fragments outside the merge": 0.2, "trace spread over merged parts": 0.3},
+		MinLabelFrac: map[string]float64{"a trace was dropped": 0.1, "fragments outside the merge": 0.2, "trace spread over merged parts": 0.3, "late part with an id below the base snapshot's": 0.05},
 	})
 }
 
